@@ -219,10 +219,11 @@ fn parse_pretty(out: &str) -> Result<(Vec<PrettyItem>, Option<usize>), String> {
             let (num, text) = l2.trim_start().split_once(" | ").or_else(|| l2.trim_start().split_once(" |")).ok_or(format!("pretty: bad excerpt line `{l2}`"))?;
             let n: usize = num.trim().parse().map_err(|_| format!("pretty: bad line number in `{l2}`"))?;
             let caret = l3.split_once("| ").map(|(_, c)| c.to_string()).or_else(|| l3.split_once('|').map(|(_, c)| c.to_string())).ok_or(format!("pretty: bad caret line `{l3}`"))?;
-            // gutter width must fit the line number
-            let spc = num.len() + 1;
-            if !l3.starts_with(&" ".repeat(spc)) {
-                return Err(format!("pretty: caret gutter does not match the line-number width: `{l3}`"));
+            // the three rows of a region share one gutter: their bars stand in one column, so that
+            // the marker row lines up with the source row
+            let bar = |r: &str| r.find('|');
+            if bar(lines[i]) != bar(l2) || bar(l3) != bar(l2) {
+                return Err(format!("pretty: the gutter bars of an excerpt are not aligned: `{}` / `{l2}` / `{l3}`", lines[i]));
             }
             region = Some((n, text.to_string(), caret));
             i += 3;
@@ -449,8 +450,9 @@ pub fn check(scn: &Scenario, stats: &mut Stats) -> Vec<Violation> {
         }
 
         // library channel (editor integration): RVParser::run on the same world, in process
+        // ... served by the editor integration's own reader
         let mut lspec = LintSpec::new(&scn.world, e, Api::Run);
-        lspec.personality = scn.personality;
+        lspec.reader = lint::ReaderKind::Lsp;
         let lo = lint::run(&lspec);
         stats.inc("t1_incarnations");
         if lo.panic.is_none() {
